@@ -10,6 +10,7 @@ from cxx2c import ExtractError
 # property -> units that contribute groups
 PROP_UNITS = {
     'C08': ['tt'],
+    'C06': ['timectl'],
 }
 
 
